@@ -31,7 +31,7 @@ SPEC_QUEUE: list = []
 REGISTRY: dict = {}
 CREATED: list = []
 SLOTS = {"fn": ["a", "b", "c"], "macro": ["x", "y"], "gated": ["a", "b", "c"]}
-GATE_TIMEOUT = 240.0
+GATE_TIMEOUT = 140.0
 
 
 class GateTimeout(RuntimeError):
